@@ -534,15 +534,36 @@ func (ex *Exec) modelRegions(m *smt.Model) map[string]string {
 			continue
 		}
 		arr := m.Arrays[o.arr]
+		name := o.name
+		if o.havocLabel != "" {
+			name = o.havocLabel
+		}
+		if o.size > 1<<20 {
+			// a huge region is written sparsely: "sparse:" followed by offset=byte pairs (hex) of the bytes the
+			// model fixes; every other byte is zero
+			keys := make([]uint64, 0, len(arr))
+			for k := range arr {
+				if k < uint64(o.size) && arr[k] != 0 {
+					keys = append(keys, k)
+				}
+			}
+			sort.Slice(keys, func(i, j int) bool { return keys[i] < keys[j] })
+			var sb strings.Builder
+			sb.WriteString("sparse:")
+			for i, k := range keys {
+				if i > 0 {
+					sb.WriteByte(',')
+				}
+				fmt.Fprintf(&sb, "%x=%02x", k, arr[k])
+			}
+			out[name] = sb.String()
+			continue
+		}
 		buf := make([]byte, o.size)
 		for k, v := range arr {
 			if k < uint64(o.size) {
 				buf[k] = v
 			}
-		}
-		name := o.name
-		if o.havocLabel != "" {
-			name = o.havocLabel
 		}
 		out[name] = fmt.Sprintf("%x", buf)
 	}
